@@ -1866,3 +1866,120 @@ Proof.
     induction (known st) as [|x l IHl]; [reflexivity|]. inversion Hk; subst. cbn [filter].
     replace (d_type x =? CC_OTHER) with false by lia. now apply IHl.
 Qed.
+
+(* --- packInto writes the packed elements joined by ", " --- *)
+Lemma fold_join2 : forall l out, Forall (fun x => x <> []) l ->
+  fold_left join2 l out =
+  match out, l with
+  | [], _ => joinr l
+  | _, [] => out
+  | _, _ => out ++ [44; 32] ++ joinr l
+  end.
+Proof.
+  induction l as [|x r IH]; intros out Hl; cbn [fold_left].
+  - destruct out; reflexivity.
+  - inversion Hl as [|? ? Hx Hr]; subst. rewrite (IH _ Hr).
+    assert (Hj : join2 out x <> []).
+    { unfold join2. destruct out; cbn [app]; [exact Hx|discriminate]. }
+    destruct (join2 out x) as [|j0 jr] eqn:Ej; [contradiction|]. rewrite <- Ej. clear Hj.
+    unfold join2. destruct out as [|o0 orest].
+    + cbn [app joinr]. destruct r; [reflexivity|]. reflexivity.
+    + cbn [joinr]. destruct r as [|y r'].
+      * now rewrite <- app_assoc.
+      * rewrite <- !app_assoc. reflexivity.
+Qed.
+
+Lemma pack_flags_known st : forall flags pcount out,
+  (pcount = 0 <-> out = []) ->
+  (forall F, In F flags -> isSet st F && negb (F =? CC_OTHER) = true -> pack_one st F <> []) ->
+  pack_flags st flags pcount out =
+  (fold_left join2 (flat_map (kn st) flags) out, pcount + lenN (flat_map (kn st) flags)).
+Proof.
+  induction flags as [|F r IH]; intros pcount out Hinv Hne; cbn [pack_flags flat_map].
+  - cbn [fold_left lenN]. f_equal. lia.
+  - unfold kn at 1 3. destruct (isSet st F && negb (F =? CC_OTHER)) eqn:EF.
+    + pose proof (Hne F (or_introl eq_refl) EF) as Hx.
+      rewrite IH.
+      * cbn [app fold_left lenN]. f_equal; [|lia].
+        f_equal. unfold join2, sep. destruct out as [|o0 orest].
+        -- replace (pcount =? 0) with true by (destruct Hinv as [_ Hi]; rewrite (Hi eq_refl); reflexivity). reflexivity.
+        -- replace (pcount =? 0) with false by (destruct Hinv as [Hi _]; destruct (pcount =? 0) eqn:E; [|reflexivity];
+                                                 assert (pcount = 0) by lia; specialize (Hi H); discriminate).
+           now rewrite <- app_assoc.
+      * split; [lia|]. intros E. apply app_eq_nil in E. destruct E as [_ E]. apply app_eq_nil in E. destruct E as [_ E]. contradiction.
+      * intros G HG. apply Hne. now right.
+    + cbn [app]. apply IH; [exact Hinv|]. intros G HG. apply Hne. now right.
+Qed.
+
+Lemma cc_pack_known st : cc_wf st -> cc_ok st = true -> other st = [] -> cc_pack st = joinr (known st).
+Proof.
+  intros Hwf Hok Hoth. unfold cc_pack. unfold cc_ok in Hok. destruct (cmask st =? 0); [discriminate|].
+  pose proof (known_good st Hwf) as Hg.
+  assert (Hne : Forall (fun x => x <> []) (known st)).
+  { clear -Hg. induction Hg as [|x l (_ & He & _) _ IH]; constructor; [now apply ends_nonnil|exact IH]. }
+  fold all_flags. rewrite (pack_flags_known st all_flags 0 []).
+  - fold (known st). rewrite Hoth. rewrite (fold_join2 _ [] Hne). reflexivity.
+  - tauto.
+  - intros F _ HF. apply andb_prop in HF. destruct HF as [HS HF].
+    assert (HF' : F < CC_OTHER).
+    { destruct Hwf as (_ & _ & _ & _ & Hhigh). destruct (F <? CC_OTHER) eqn:E; [lia|].
+      rewrite (Hhigh F) in HS by lia. discriminate. }
+    destruct (item_view_ok st F Hwf HF' HS) as [Ha _ _ _ _ _].
+    destruct (good_name_arg F (pk_arg st F) HF' Ha) as (_ & He & _). rewrite pack_one_eq. now apply ends_nonnil.
+Qed.
+
+Lemma joinr_no_nul : forall l, Forall good_item l -> no_nul (joinr l).
+Proof.
+  induction l as [|x r IH]; intros H; [reflexivity|]. inversion H as [|? ? (_ & _ & Hn & _) Hr]; subst.
+  cbn [joinr]. destruct r as [|y r']; [exact Hn|].
+  apply no_nul_app. split; [exact Hn|]. apply no_nul_app. split; [reflexivity|]. now apply IH.
+Qed.
+
+Lemma c_str_id l : no_nul l -> c_str l = l.
+Proof.
+  unfold no_nul, c_str. induction l as [|c r IH]; intros H; [reflexivity|].
+  cbn [forallb] in H. apply andb_prop in H. destruct H as [Hc Hr]. cbn [span]. rewrite Hc.
+  specialize (IH Hr). destruct (span _ r) as [a b]. cbn [fst] in *. now rewrite IH.
+Qed.
+
+Lemma list_items_joinr l : Forall good_item l -> list_items 44 (joinr l) = l.
+Proof.
+  intros H. unfold list_items. rewrite (c_str_id _ (joinr_no_nul l H)). apply items_joinr; [exact H|lia].
+Qed.
+
+(* C29 main theorem 3 (partial: objects without unknown directives):
+   parse (pack (parse v)) = parse v *)
+Theorem cc_roundtrip_known v st :
+  cc_parse v = Some st -> cc_ok st = true -> other st = [] -> cc_parse (cc_pack st) = Some st.
+Proof.
+  intros Hp Hok Hoth. pose proof Hp as Hp0. rewrite cc_parse_exact in Hp. injection Hp as Hst.
+  assert (Hwf : cc_wf st) by (rewrite <- Hst; apply spec_cc_wf).
+  rewrite (cc_pack_known st Hwf Hok Hoth), cc_parse_exact.
+  rewrite (list_items_joinr _ (known_good st Hwf)). f_equal. now apply spec_known.
+Qed.
+
+(* ====================================================================== *)
+(* concrete values used by the Examples of Properties_C29.v *)
+(* max-age=5, private="Set-Cookie", no-store, foo, MAX-AGE=7 *)
+Definition ex_value : bytes :=
+  [109;97;120;45;97;103;101;61;53;44;32;112;114;105;118;97;116;101;61;34;83;101;116;45;67;111;111;107;105;101;34;44;32;
+   110;111;45;115;116;111;114;101;44;32;102;111;111;44;32;77;65;88;45;65;71;69;61;55].
+(* max-age=4294967396, s-maxage=-1 : both invalid, both absent *)
+Definition ex_invalid : bytes :=
+  [109;97;120;45;97;103;101;61;52;50;57;52;57;54;55;51;57;54;44;32;115;45;109;97;120;97;103;101;61;45;49].
+(* Max-Age=60 , no-cache="Set-Cookie, Age",private, max-stale : no unknown directive *)
+Definition ex_known : bytes :=
+  [77;97;120;45;65;103;101;61;54;48;32;44;32;110;111;45;99;97;99;104;101;61;34;83;101;116;45;67;111;111;107;105;101;44;32;65;103;101;34;
+   44;112;114;105;118;97;116;101;44;32;109;97;120;45;115;116;97;108;101].
+
+(* statements packaged for Properties_C29.v *)
+Lemma parse_fold_pairs st v :
+  cc_parse_from st v = Some (fold_left step_pair (pairs_of v) st) /\ map fst (pairs_of v) = list_items 44 v.
+Proof. split; [apply cc_parse_from_fold|apply pairs_of_items]. Qed.
+
+Lemma cc_parse_wf v st : cc_parse v = Some st -> cc_wf st.
+Proof. intros H. rewrite cc_parse_exact in H. injection H as <-. apply spec_cc_wf. Qed.
+
+Lemma pack_joined st : cc_wf st -> cc_ok st = true -> other st = [] ->
+  cc_pack st = joinr (known st) /\ Forall good_item (known st) /\ spec_cc (known st) = st.
+Proof. intros Hwf Hok Ho. split; [now apply cc_pack_known|]. split; [now apply known_good|now apply spec_known]. Qed.
